@@ -153,10 +153,12 @@ Fixpoint check (c : c10case) : N :=
       else match itt with
            | Panic _ => 3
            | Err _ =>
-               (* a type whose translated field names collide has no translation
-                  (error naming the field): outside the property's quantifier *)
+               (* a type whose translated field names collide, or one of whose names /
+                  tag values the chain's case decoder rejects, has no translation
+                  (an error): outside the property's quantifier, provided the model
+                  says so too *)
                match model_translate t ms with
-               | Err c => if c =? dup_name_err then 0 else 3
+               | Err c => if c =? 255 then 3 else 0
                | _ => 3
                end
            | Ok _ =>
